@@ -138,7 +138,7 @@ func run(c *core.Ctx) error {
 
 	var jobs []core.Job
 	for _, it := range items {
-		jobs = append(jobs, core.Job{Kind: "elk", Payload: elkrun.Job{Src: it.src, Cfg: &elkrun.Cfg{PoolSize: 2, QueueSize: 8}}, TimeoutMs: 60000})
+		jobs = append(jobs, core.Job{Kind: "elk", Payload: elkrun.Job{Src: it.src, Cfg: &elkrun.Cfg{PoolSize: 8, QueueSize: 16}}, TimeoutMs: 60000})
 	}
 	results := c.NewPool(c.Workers).Map(jobs, nil)
 
@@ -179,6 +179,9 @@ func run(c *core.Ctx) error {
 				c.Note("out of domain: " + r.Diags)
 			}
 			continue
+		}
+		if r.Hung {
+			return core.Inconclusivef("program did not finish: %v", it.p["desc"])
 		}
 		if r.GoPanic != "" {
 			rec["kind"] = "go_panic"
